@@ -328,6 +328,9 @@ func (r *run) genBatch(hp *histPlan, i int) *batchIn {
 	case t.Chance(core.Gen, 1, 10):
 		b.kind = "empty"
 		g.MaxItems = -1
+	case t.Chance(core.Gen, 1, 600):
+		b.kind = "long-list-or-map"
+		g.Long = true
 	}
 	switch b.signal {
 	case "traces":
@@ -386,15 +389,20 @@ func (r *run) runStream() {
 	}
 	hp.nBatches = 1 + t.Weighted(core.Gen, 2, 3, 3, 3, 2, 2, 1, 1, 1, 1, 1, 1)
 	// cardinality ramps: per run, steer a column through a transition
-	rampW := []int{6, 3, 0}
+	rampW := []int{60, 30, 0}
 	if prop == "C04" || prop == "C13" {
-		rampW = []int{3, 6, 0}
+		rampW = []int{30, 60, 0}
 	}
-	if thorough && (prop == "C04" || prop == "C13" || prop == "C12") {
+	if prop == "C04" || prop == "C13" || prop == "C12" {
+		// streams that cross 65,535 distinct values are expensive: one run in
+		// ten at the thorough tier, about one in ninety at the quick tier
 		rampW[2] = 1
+		if thorough {
+			rampW[2] = 10
+		}
 	}
 	if thorough && (prop == "C01" || prop == "C02" || prop == "C03") && t.Chance(core.Gen, 1, 60) {
-		rampW[2] = 3
+		rampW[2] = 30
 	}
 	hp.ramp = []string{"", "small", "big"}[t.Weighted(core.Gen, rampW...)]
 	if hp.ramp == "big" && hp.nBatches < 6 {
